@@ -1,6 +1,9 @@
 /- C09 — every policy is a coherent probability distribution over actions (umbrella module).
    a: sums, row validity, dense sampler   b: greedy   c: softmax, epsilon, LRP   d: WoLF, projection, PGA-APP
-   e: Thompson kernel   f: swap-and-pop lists, SuccessiveRejects, ESRL   g: TopTwo / T3C kernels -/
+   e: Thompson kernel   f: swap-and-pop lists, SuccessiveRejects, ESRL   g: TopTwo / T3C kernels
+   h: greedy on clustered rows (ties inside the tolerances, large magnitudes), maximum-first repair
+   i: Monte-Carlo tables (Thompson / TopTwo / T3C getPolicy, getActionProbability), factored ε-mixture, recommendAction
+   j: shift invariance of the bandit selection kernels, EpsilonPolicy over QGreedyPolicy   (x: obligations on Gen.C09, separate module) -/
 import AITB.Props.C09a
 import AITB.Props.C09b
 import AITB.Props.C09c
@@ -8,3 +11,8 @@ import AITB.Props.C09d
 import AITB.Props.C09e
 import AITB.Props.C09f
 import AITB.Props.C09g
+import AITB.Props.C09h
+import AITB.Props.C09i
+import AITB.Props.C09j
+import AITB.Props.C09k
+import AITB.Props.C09l
